@@ -684,6 +684,13 @@ impl MemBrokerService {
     pub async fn check_metadata(&self) -> Result<Option<MetaStore>, MetaStoreError> {
         self.storage.check_metadata().await
     }
+
+    // Verification hook: epoch recovery with a caller-supplied largest proxy epoch
+    // (`recover_epoch` obtains it from the proxies over TCP). Compiled only with `--cfg undermoon_verif`.
+    #[cfg(undermoon_verif)]
+    pub async fn recover_epoch_with_max(&self, max_epoch: u64) -> Result<(), MetaStoreError> {
+        self.storage.recover_epoch(max_epoch + 1).await
+    }
 }
 
 type ServiceState = Arc<MemBrokerService>;
